@@ -522,6 +522,8 @@ def determinism_smoke():
 
 
 def main():
+    import logging
+    logging.disable(logging.CRITICAL)
     bad = 0
     for fn in SCENARIOS:
         try:
